@@ -533,7 +533,7 @@ def prepared_real(lang, nodes):
 
 
 def prepared_model(cases):
-    lines = model_lines('compile', cases)
+    lines = model_lines('compileflat', cases)   # the flat _extract_directives pass + attach (= compile, Props.construction_pipeline_eq_compile)
     out = []
     for a in proto.run_lines(lines):
         if a in ('unmodelled', 'bad-op', 'bad-line'):
